@@ -165,8 +165,12 @@ def run(ctx):
                                 "fault": list(fault) if fault else None}
                         try:
                             app = build(iface, env)
-                        except Exception as e:  # constructor refuses: not a protocol matter
-                            ctx.notes.append("recipe %s cannot be built: %r" % (name, e))
+                        except Exception as e:  # constructor refuses: not a protocol matter - unless it is an existing file that is refused
+                            if name.startswith("File"):
+                                ctx.violation(case, "a response for an existing file", type(e).__name__ + ": " + str(e)[:120],
+                                              "%s cannot be constructed (%s): the file cannot be served" % (name, type(e).__name__))
+                            else:
+                                ctx.notes.append("recipe %s cannot be built: %r" % (name, e))
                             continue
                         r, ended = execute(iface, app, servers.Req(method=method, headers=hdrs), fault, zc)
                         unexpected_exception(ctx, r, case)
